@@ -94,8 +94,10 @@ type c09Collector struct {
 }
 
 // op: C09 remote <utf8> <tx>;<tx>   tx = <id>.<dom>.<form>.<act>[.<mbox>],...:<df>
-// (mbox defaults to id). The second result says whether the history uses anything the go-smtp
-// based scripted server cannot do (positional answers, connection faults, per-domain DATA failure).
+// (mbox defaults to id). The same id may occur several times in one transaction: the very same
+// address string is added again (exact duplicate), every occurrence with its own RCPT answer.
+// The second result says whether the history uses anything the go-smtp based scripted server
+// cannot do (positional answers, connection faults, per-domain DATA failure, exact duplicates).
 func c09Parse(s string) ([]c09Tx, bool) {
 	var out []c09Tx
 	raw := false
@@ -116,6 +118,11 @@ func c09Parse(s string) ([]c09Tx, bool) {
 			}
 			if !strings.ContainsRune("ailu", rune(r.form)) || (r.act != '0' && r.act != '1') {
 				raw = true
+			}
+			for _, q := range tx.rcpts {
+				if q.id == r.id {
+					raw = true
+				}
 			}
 			tx.rcpts = append(tx.rcpts, r)
 		}
@@ -295,8 +302,8 @@ func c09Remote(t *testing.T, out *vh.Out, op string) {
 		faultSeen := false
 		for _, r := range tx.rcpts {
 			a := c09Addr(r.mbox, r.dom, r.form)
-			if _, dup := byAddr[a]; dup {
-				out.Note("generator produced the same address string twice in one transaction: " + op)
+			if prev, dup := byAddr[a]; dup && prev != r.id {
+				out.Note("generator produced the same address string under two ids in one transaction: " + op)
 			}
 			byAddr[a] = r.id
 			addrOf[r.id] = a
@@ -325,6 +332,18 @@ func c09Remote(t *testing.T, out *vh.Out, op string) {
 		}
 		if raw {
 			hop.r.NextRcpt(0)
+		}
+		occurs := map[int]int{}
+		for _, r := range tx.rcpts {
+			occurs[r.id]++
+		}
+		for id, n := range occurs {
+			if n > 1 {
+				out.Stat(fmt.Sprintf("remote.duplicate.same-address-%d-times", n))
+				if accepted[id] > 1 {
+					out.Stat("remote.duplicate.accepted-more-than-once")
+				}
+			}
 		}
 		col := &c09Collector{}
 		sc := statusFunc(func(rcpt string, err error) {
@@ -525,6 +544,29 @@ func c09GenTxRaw(r *vh.Rng, nextID *int, respell, fault bool) string {
 	for i := 0; i < extra; i++ {
 		*nextID++
 		insert(fmt.Sprintf("%d.%d.%c.%c", *nextID, r.Intn(3), "aaailuxcC"[r.Intn(9)], acts()))
+	}
+	// exact duplicates: one of the recipients is added again (once or twice more) with the very same
+	// address string, next to the first occurrence or anywhere later, each with its own RCPT answer
+	if r.Chance(35) {
+		k := r.Intn(len(rs))
+		orig := strings.Split(rs[k], ".")
+		if !vc09.IsFault(orig[3][0]) {
+			at := k
+			for n := 1 + r.Intn(100)/65; n > 0; n-- {
+				cp := append([]string{}, orig...)
+				cp[3] = string(rune(acts()))
+				if r.Chance(60) {
+					cp[3] = "1"
+				}
+				at = at + 1 + r.Intn(len(rs)-at)
+				if r.Chance(40) {
+					at = k + 1
+				}
+				rs = append(rs, "")
+				copy(rs[at+1:], rs[at:])
+				rs[at] = strings.Join(cp, ".")
+			}
+		}
 	}
 	df := "0"
 	switch {
